@@ -47,7 +47,7 @@ func x2Configs(prop, tier string) []*X2Config {
 	}
 	adv := []time.Duration{dly / 2, dly}
 	switch prop {
-	case "C01", "C02h", "C03", "C05", "C06", "C15":
+	case "C01", "C02", "C08", "C03", "C05", "C06", "C15":
 		graphs := []struct {
 			n string
 			g map[string][]string
@@ -72,6 +72,14 @@ func x2Configs(prop, tier string) []*X2Config {
 					other.Conc = 3 - pc.Conc
 					c.Cfgs = append(c.Cfgs, other)
 					c.Reload = true
+				case "C02":
+					c.Props = props("C02")
+				case "C08":
+					c.Props = props("C08")
+					if g.n == "one" {
+						c.Cfgs[0].Graph = graphChain
+						c.Name = prop + "/" + cfgName(c.Cfgs[0])
+					}
 				case "C03":
 					c.Props = props("C03")
 				case "C05":
